@@ -251,6 +251,9 @@ class InnerIt:
     def inc(self):
         self.pos += 1
 
+    def m_operator_bool(self, M, a, t):
+        return self.truth()
+
     def cur(self):
         if self.pos >= len(self.items):
             raise AbstractViolation("InnerIterator advanced past its end")
